@@ -7,6 +7,7 @@ import (
 	"fmt"
 	"math/bits"
 	"sort"
+	"strings"
 
 	"pgregory.net/rapid"
 	"verif/harness/ts"
@@ -78,6 +79,7 @@ type G struct {
 	pure       int // >0: no calls may be generated (switch tags, range operands)
 	topLevel   bool
 	pickLast   int
+	localNames map[string][]string // per function: the names drawn for its parameters and locals
 }
 
 var namePool = []string{"a", "b", "c", "d", "e", "x", "y", "z", "n", "m", "s", "t", "u", "v", "w", "k", "p", "q", "r", "acc", "tmp", "cnt", "val", "res"}
@@ -205,6 +207,62 @@ func (g *G) funcNamed(n string) bool {
 // freshName picks a name that is not visible here. Small pool on purpose: the same spellings
 // recur as parameter of one function, local of another and later-defined global.
 func (g *G) freshName() string {
+	n := g.freshName1()
+	if g.cur != nil {
+		if g.localNames == nil {
+			g.localNames = map[string][]string{}
+		}
+		g.localNames[g.cur.Name] = append(g.localNames[g.cur.Name], n)
+	}
+	return n
+}
+
+// compoundName is a legal identifier of the shape <function name>_<variable name>: the spelling a back-end could give the
+// local of a function. Preferably built from a function defined so far and a name used inside it; else from the pools
+// (a function of that name with such a local may follow: funcDef and the names inside it then prefer the matching parts).
+func (g *G) compoundName() string {
+	cands := []string{}
+	for k, f := range g.funcs {
+		for _, l := range g.localNames[f.Name] {
+			cands = append(cands, f.Name+"_"+l, fmt.Sprintf("f%d_%s", k+1, l))
+		}
+	}
+	if len(cands) > 0 && g.chance("compound-of-existing", 70) {
+		return cands[g.intn("compound", 0, len(cands)-1)]
+	}
+	return funcPool[g.intn("compound-f", 0, len(funcPool)-1)] + "_" + namePool[g.intn("compound-v", 0, len(namePool)-1)]
+}
+
+// plannedSuffixes: the Y of every visible variable spelled <prefix>_Y.
+func (g *G) plannedSuffixes(prefix string) []string {
+	out := []string{}
+	for _, sc := range g.scopes {
+		for _, v := range sc {
+			if strings.HasPrefix(v.Name, prefix+"_") && len(v.Name) > len(prefix)+1 {
+				out = append(out, v.Name[len(prefix)+1:])
+			}
+		}
+	}
+	return out
+}
+
+func (g *G) freshName1() string {
+	if g.chance("compound-name", 7) {
+		if n := g.compoundName(); g.visible(n) == nil && !g.funcNamed(n) {
+			g.tag("compound-name")
+			return n
+		}
+	}
+	if g.cur != nil {
+		// inside a function F: a visible variable is spelled F_Y - Y is a good name for a local
+		if sfx := g.plannedSuffixes(g.cur.Name); len(sfx) > 0 && g.chance("planned-suffix", 40) {
+			n := sfx[g.intn("suffix", 0, len(sfx)-1)]
+			if g.visible(n) == nil && !g.funcNamed(n) && n != "tcount" {
+				g.tag("local-completes-compound-name")
+				return n
+			}
+		}
+	}
 	for tries := 0; tries < 8; tries++ {
 		n := namePool[g.intn("name", 0, len(namePool)-1)]
 		if g.visible(n) == nil && !g.funcNamed(n) && n != "tcount" {
@@ -1830,6 +1888,18 @@ func (g *G) funcDef() ts.Stmt {
 	name := ""
 	for tries := 0; ; tries++ {
 		name = funcPool[g.intn("fname", 0, len(funcPool)-1)]
+		if tries == 0 {
+			// a visible variable spelled X_Y with X a possible function name: X is a good name for this function
+			planned := []string{}
+			for _, x := range funcPool {
+				if len(g.plannedSuffixes(x)) > 0 && !g.funcNamed(x) {
+					planned = append(planned, x)
+				}
+			}
+			if len(planned) > 0 && g.chance("planned-function-name", 60) {
+				name = planned[g.intn("planned-fname", 0, len(planned)-1)]
+			}
+		}
 		if tries > 6 {
 			g.nameN++
 			name = fmt.Sprintf("fn%d", g.nameN)
